@@ -21,6 +21,9 @@ THEOREMS = [NS + t for t in [
     "flags_exact",                     # the flags are `any` over the stored bonds
     "nonConstDiags_exact",             # non_const_diags = increasing list of the bond indices with a non-constant diagonal
     "flags_order_independent",         # flags / offset / multiset of bonds do not depend on the order of the calls
+    "table_is_current",                # along calls / set_do_heatbath / set_do_loop_updates / steps the cached heat-bath table is absent or current
+    "heatbath_step_finds_table",       # with heat-bath on, the unwrap in diagonal_update finds the table of the current interactions
+    "events_keep_bonds_in_range",      # the bond invariant along such interleavings
 ]]
 
 
